@@ -408,7 +408,11 @@ func (x *execCtx) call(f *funcExpr, env *rowEnv) (any, *pgErr) {
 	}
 	switch f.name {
 	case "now", "transaction_timestamp", "statement_timestamp", "clock_timestamp":
-		return binary.BigEndian.AppendUint64(nil, uint64(x.s.now())), nil
+		ts := x.s.now()
+		if (f.name == "now" || f.name == "transaction_timestamp") && x.tx != nil && x.tx.started {
+			ts = x.tx.start // as in Postgres, now() is the start time of the current transaction
+		}
+		return binary.BigEndian.AppendUint64(nil, uint64(ts)), nil
 	case "pg_advisory_xact_lock":
 		if args[0] == nil {
 			return nil, nil
